@@ -12,6 +12,10 @@ rnd, out = sys.argv[1], sys.argv[2]
 props = [json.loads(l) for l in open("/verif/properties.jsonl")]
 os.makedirs(out, exist_ok=True)
 KINDS = {
+    "10": ("mut1 must be a commit of any kind whose slip sits in an error-handling or clean-up path (an except / finally clause, an __exit__, a rollback, a "
+           "'best effort' helper, the handling of a partial failure) - the happy path is untouched\n"
+           "  mut2 must be a commit of any kind whose slip concerns a DEFAULT or OPTIONAL value (None vs missing vs falsy, a sentinel, a default argument evaluated "
+           "once, an optional parameter threaded through several calls, `x or default` on a legitimate falsy x, dict.get / setdefault / getattr defaults)"),
     "9": ("mut1 must be a commit of any kind whose regression shows only when TWO public features are combined (for example retry with a registry, fresh_time with "
           "dependent sources, transform_physical with dry_run, scopes with progress displays, max_errors with stale_check_max_workers, a MountedStore around a "
           "file store, plan.copy() with a registry, unpack / gather with stored values) - each feature alone keeps working\n"
